@@ -1,4 +1,6 @@
 import SnowModel.Drv.Util
+import SnowModel.Drv.C07
+import SnowModel.Drv.C13
 import SnowModel.Drv.C16
 import SnowModel.Drv.C12
 import SnowModel.Drv.L1
@@ -13,6 +15,8 @@ def dispatch (j : Json) : Except String Json := do
   else if m.startsWith "l1." then SnowModel.Drv.L1.handle m j
   else if m.startsWith "l2." then SnowModel.Drv.L2.handle m j
   else if m.startsWith "c16." then SnowModel.Drv.C16.handle m j
+  else if m.startsWith "c13." then SnowModel.Drv.C13.handle m j
+  else if m.startsWith "c07." then SnowModel.Drv.C07.handle m j
   else throw s!"unknown method {m}"
 
 partial def loop (hin hout : IO.FS.Stream) : IO Unit := do
